@@ -453,6 +453,33 @@ impl<'tcx> Ex<'tcx> {
                         }
                     }
                 }
+            } else if let ty::Adt(..) | ty::Uint(_) | ty::Int(_) | ty::Bool = inner.kind() {
+                // `&CONST` of a small value (e.g. a promoted `&Init::None`): export the pointee bytes
+                if let Ok(cv) = c.const_.eval(tcx, env, c.span) {
+                    if let ConstValue::Scalar(rustc_middle::mir::interpret::Scalar::Ptr(ptr, _)) = cv {
+                        let (prov, offset) = ptr.prov_and_relative_offset();
+                        if let Some(rustc_middle::mir::interpret::GlobalAlloc::Memory(alloc)) =
+                            tcx.try_get_global_alloc(prov.alloc_id())
+                        {
+                            if let Ok(l) = tcx.layout_of(env.as_query_input(*inner)) {
+                                let size = l.size.bytes() as usize;
+                                let off = offset.bytes() as usize;
+                                let a = alloc.inner();
+                                if size > 0 && size <= 8 && off + size <= a.len() && a.provenance().ptrs().is_empty() {
+                                    let bytes = a.inspect_with_uninit_and_ptr_outside_interpreter(off..off + size);
+                                    let mut v: u64 = 0;
+                                    for (i, b) in bytes.iter().enumerate() {
+                                        v |= (*b as u64) << (8 * i);
+                                    }
+                                    fields.push(("deref_val", J::Int(v as i128)));
+                                    if let ty::Adt(def, _) = inner.kind() {
+                                        fields.push(("deref_adt", jstr(canon(tcx, def.did()))));
+                                    }
+                                }
+                            }
+                        }
+                    }
+                }
             }
         } else if let ty::Adt(def, _) = ty.kind() {
             // small C-like enums / newtypes: try scalar
